@@ -9,21 +9,22 @@ using namespace vf;
 typedef SparseMatrixCSR<double, std::uint64_t> C64;
 typedef SparseMatrixCSR<float, std::uint32_t> C32;
 typedef SparseMatrixBCSR<double, std::uint64_t, 2, 2> B22;
+typedef SparseMatrixBCSR<double, std::uint64_t, 2, 3> B23;
 typedef SparseMatrixCSCR<double, std::uint64_t> SC;
 typedef SparseMatrixBanded<double, std::uint64_t> BD;
 typedef DenseMatrix<double, std::uint64_t> DM;
-enum Kind { K_NONE = -1, K_C64 = 0, K_C32, K_B22, K_SC, K_BD, K_DM, K_COUNT };
-static const char* kind_name[] = {"csr<double,u64>", "csr<float,u32>", "bcsr<2,2>", "cscr", "banded", "dense"};
+enum Kind { K_NONE = -1, K_C64 = 0, K_C32, K_B22, K_SC, K_BD, K_DM, K_B23, K_COUNT };
+static const char* kind_name[] = {"csr<double,u64>", "csr<float,u32>", "bcsr<2,2>", "cscr", "banded", "dense", "bcsr<2,3>"};
 
 struct Slot
 {
-  int kind = K_NONE; int vg = 0, ig = 0; /* sharing groups of value / index arrays */ C64 c64; C32 c32; B22 b22; SC sc; BD bd; DM dm; Dense model;
+  int kind = K_NONE; int vg = 0, ig = 0; /* sharing groups of value / index arrays */ C64 c64; C32 c32; B22 b22; B23 b23; SC sc; BD bd; DM dm; Dense model;
   void reset() { *this = Slot(); }
 };
 
 template<typename F> auto with(Slot& s, F f)
 {
-  switch(s.kind) { case K_C64: return f(s.c64); case K_C32: return f(s.c32); case K_B22: return f(s.b22); case K_SC: return f(s.sc); case K_BD: return f(s.bd); default: return f(s.dm); }
+  switch(s.kind) { case K_C64: return f(s.c64); case K_C32: return f(s.c32); case K_B22: return f(s.b22); case K_SC: return f(s.sc); case K_BD: return f(s.bd); case K_B23: return f(s.b23); default: return f(s.dm); }
 }
 
 static Dense view(Slot& s) { return with(s, [](auto& m) { return dense_of(m); }); }
@@ -71,7 +72,7 @@ static void chain_case(Tape& t, Ctx& c)
 {
   const int NS = 4; Slot pool[NS];
   // ---- initial container
-  int k0 = t.pick({4, 1, 2, 2, 2, 1});
+  int k0 = t.pick({4, 1, 2, 2, 2, 1, 2});
   J hist = J::arr(); J init = J::obj(); init.set("kind", kind_name[k0]);
   int next_group = 1; Slot& s0 = pool[0]; s0.kind = k0; s0.vg = next_group++; s0.ig = next_group++;
   if(k0 == K_BD) { Band b = gen_band(t, 10, t.pick({3, 1})); init.set("A", b.json()); s0.bd = make_banded<double, std::uint64_t>(b); s0.model = dense_of_band<double>(b); c.label("init:banded"); }
@@ -84,6 +85,7 @@ static void chain_case(Tape& t, Ctx& c)
     case K_C32: s0.c32 = make_csr<float, std::uint32_t>(p); s0.model = dense_of_pat<float>(p); break;
     case K_B22: s0.b22 = make_bcsr<double, std::uint64_t, 2, 2>(p); s0.model = dense_of_pat<double>(p, 2, 2); break;
     case K_SC: s0.sc = make_cscr<double, std::uint64_t>(p); s0.model = dense_of_pat<double>(p); break;
+    case K_B23: s0.b23 = make_bcsr<double, std::uint64_t, 2, 3>(p); s0.model = dense_of_pat<double>(p, 2, 3); break;
     default: s0.dm = make_densem<double, std::uint64_t>(p); s0.model = dense_of_pat<double>(p); for(auto& x : s0.model.stored) x = 1; break;
     }
     if(p.nnz() == 0) c.label("init:entry-free"); else if(p.has_empty_row()) c.label("init:has-empty-row");
@@ -110,7 +112,7 @@ static void chain_case(Tape& t, Ctx& c)
     std::vector<int> ops = {O_CLONE, O_MOVE, O_SELF_CONVERT};
     if(src.kind != K_DM) ops.push_back(O_LAYOUT);
     if(src.kind == K_C64 || src.kind == K_B22 || src.kind == K_DM) { ops.push_back(O_TRANSPOSE); ops.push_back(O_TRANSPOSE2); }
-    if(src.kind == K_C64 || src.kind == K_B22) { ops.push_back(O_PERMUTE); ops.push_back(O_PERMUTE); }
+    if(src.kind == K_C64 || src.kind == K_B22 || src.kind == K_B23) { ops.push_back(O_PERMUTE); ops.push_back(O_PERMUTE); }
     if(src.kind == K_C64) { ops.push_back(O_TO_C32); ops.push_back(O_TO_BD); ops.push_back(O_TO_SC); ops.push_back(O_GRAPH); }
     if(src.kind != K_C64 && src.kind != K_DM) { ops.push_back(O_TO_C64); ops.push_back(O_TO_C64); } // DenseMatrix offers no conversion to sparse formats
     int op = ops[(size_t)t.range(0, (int)ops.size() - 1)];
@@ -120,7 +122,7 @@ static void chain_case(Tape& t, Ctx& c)
     if(op == O_PERMUTE) for(int i = 0; i < NS; ++i) if(i != si && pool[i].kind != K_NONE && (pool[i].vg == src.vg || pool[i].ig == src.ig)) { op = O_CLONE; break; }
     // known-finding classes switched off by the driver (exactly the failing class, nothing more)
     if(entry_free && src.kind == K_C64 && op == O_PERMUTE && c.excl("c02-csr-entryfree-permute")) op = O_CLONE;
-    if(entry_free && src.kind == K_B22 && op == O_PERMUTE && c.excl("c02-bcsr-entryfree-permute")) op = O_CLONE;
+    if(entry_free && (src.kind == K_B22 || src.kind == K_B23) && op == O_PERMUTE && c.excl("c02-bcsr-entryfree-permute")) op = O_CLONE;
     if(entry_free && src.kind == K_C64 && op == O_TO_BD && c.excl("c02-csr-entryfree-to-banded")) op = O_CLONE;
     if(entry_free && src.kind == K_C64 && op == O_TO_SC && c.excl("c02-csr-entryfree-to-cscr")) op = O_CLONE;
     if(entry_free && src.kind == K_C64 && op == O_GRAPH && c.excl("c02-csr-entryfree-graph")) op = O_CLONE;
@@ -142,7 +144,7 @@ static void chain_case(Tape& t, Ctx& c)
         if((CloneMode)mode == CloneMode::Layout) cl.copy(m);               // values are uninitialised by definition: define them through copy()
         dst.kind = src.kind; dst.model = src.model; dst.vg = (mode == 0) ? src.vg : next_group++; dst.ig = (mode <= 2) ? src.ig : next_group++;
         if constexpr(std::is_same<M, C64>::value) dst.c64 = std::move(cl); else if constexpr(std::is_same<M, C32>::value) dst.c32 = std::move(cl);
-        else if constexpr(std::is_same<M, B22>::value) dst.b22 = std::move(cl); else if constexpr(std::is_same<M, SC>::value) dst.sc = std::move(cl);
+        else if constexpr(std::is_same<M, B22>::value) dst.b22 = std::move(cl); else if constexpr(std::is_same<M, B23>::value) dst.b23 = std::move(cl); else if constexpr(std::is_same<M, SC>::value) dst.sc = std::move(cl);
         else if constexpr(std::is_same<M, BD>::value) dst.bd = std::move(cl); else dst.dm = std::move(cl);
       });
       // value independence of deep / weak / layout clones: change the clone, the source must keep its model values (checked below for all slots)
@@ -152,7 +154,7 @@ static void chain_case(Tape& t, Ctx& c)
     case O_MOVE: {
       opname = "move"; h.set("op", opname); hist.add(h); c.desc.set("history", hist); c.op = opname + "@" + kind_name[src.kind]; c.label("op:move"); c.announce();
       { int vg = src.vg, ig = src.ig; dst.reset(); dst.vg = vg; dst.ig = ig; } dst.kind = src.kind; dst.model = src.model;
-      switch(src.kind) { case K_C64: dst.c64 = std::move(src.c64); break; case K_C32: dst.c32 = std::move(src.c32); break; case K_B22: dst.b22 = std::move(src.b22); break;
+      switch(src.kind) { case K_C64: dst.c64 = std::move(src.c64); break; case K_C32: dst.c32 = std::move(src.c32); break; case K_B22: dst.b22 = std::move(src.b22); break; case K_B23: dst.b23 = std::move(src.b23); break;
         case K_SC: dst.sc = std::move(src.sc); break; case K_BD: dst.bd = std::move(src.bd); break; default: dst.dm = std::move(src.dm); }
       src.reset();
       break; }
@@ -160,14 +162,14 @@ static void chain_case(Tape& t, Ctx& c)
       // same-type convert: the result shares everything with the source (documented: assign)
       opname = "convert:same-type"; h.set("op", opname); hist.add(h); c.desc.set("history", hist); c.op = opname + "@" + kind_name[src.kind]; c.label("op:" + opname); c.announce();
       dst.reset(); dst.kind = src.kind; dst.model = src.model; dst.vg = src.vg; dst.ig = src.ig;
-      switch(src.kind) { case K_C64: dst.c64.convert(src.c64); break; case K_C32: dst.c32.convert(src.c32); break; case K_B22: dst.b22.convert(src.b22); break;
+      switch(src.kind) { case K_C64: dst.c64.convert(src.c64); break; case K_C32: dst.c32.convert(src.c32); break; case K_B22: dst.b22.convert(src.b22); break; case K_B23: dst.b23.convert(src.b23); break;
         case K_SC: dst.sc.convert(src.sc); break; case K_BD: dst.bd.convert(src.bd); break; default: dst.dm.convert(src.dm); }
       break; }
     case O_LAYOUT: {
       opname = "layout-rebuild"; h.set("op", opname); hist.add(h); c.desc.set("history", hist); c.op = opname + "@" + kind_name[src.kind]; c.label("op:" + opname); c.announce();
       dst.reset(); dst.kind = src.kind; dst.model = src.model; dst.vg = next_group++; dst.ig = src.ig;
       switch(src.kind) { case K_C64: dst.c64 = C64(src.c64.layout()); dst.c64.copy(src.c64); break; case K_C32: dst.c32 = C32(src.c32.layout()); dst.c32.copy(src.c32); break;
-        case K_B22: dst.b22 = B22(src.b22.layout()); dst.b22.copy(src.b22); break; case K_SC: dst.sc = SC(src.sc.layout()); dst.sc.copy(src.sc); break;
+        case K_B22: dst.b22 = B22(src.b22.layout()); dst.b22.copy(src.b22); break; case K_B23: dst.b23 = B23(src.b23.layout()); dst.b23.copy(src.b23); break; case K_SC: dst.sc = SC(src.sc.layout()); dst.sc.copy(src.sc); break;
         default: dst.bd = BD(src.bd.layout()); dst.bd.copy(src.bd); }
       break; }
     case O_GRAPH: {
@@ -189,19 +191,19 @@ static void chain_case(Tape& t, Ctx& c)
       break; }
     case O_PERMUTE: {
       bool back = t.flag(); opname = back ? "permute+inverse" : "permute"; h.set("op", opname);
-      long br = (src.kind == K_B22) ? 2 : 1; Index nr = Index(src.model.r / br), nc = Index(src.model.c / br);
+      long br = (src.kind == K_B22 || src.kind == K_B23) ? 2 : 1, bc = (src.kind == K_B22) ? 2 : (src.kind == K_B23 ? 3 : 1); Index nr = Index(src.model.r / br), nc = Index(src.model.c / bc);
       if(nr == 0 || nc == 0) { // Permutation(0, ...) asserts "cannot create empty permutation": empty permutations exist only default-constructed
         opname = "permute:empty-perm"; h.set("op", opname); hist.add(h); c.desc.set("history", hist); c.op = opname + "@" + kind_name[src.kind]; c.label("op:" + opname); c.announce();
-        Adjacency::Permutation e1, e2; if(src.kind == K_C64) src.c64.permute(e1, e2); else src.b22.permute(e1, e2); di = si; break; }
+        Adjacency::Permutation e1, e2; if(src.kind == K_C64) src.c64.permute(e1, e2); else if(src.kind == K_B22) src.b22.permute(e1, e2); else src.b23.permute(e1, e2); di = si; break; }
       std::vector<Index> pp, qq; Adjacency::Permutation P = make_perm(t, nr, pp), Q = make_perm(t, nc, qq);
       h.set("p", J(std::vector<long>(pp.begin(), pp.end()))); h.set("q", J(std::vector<long>(qq.begin(), qq.end())));
       hist.add(h); c.desc.set("history", hist); c.op = opname + "@" + kind_name[src.kind]; c.label("op:" + opname); c.announce();
       // in place on src: B(i,j) = A(p[i], q[j]) (block-wise for BCSR)
       Dense m(src.model.r, src.model.c);
-      for(long i = 0; i < m.r; ++i) for(long j = 0; j < m.c; ++j) { long oi = (long)pp[(size_t)(i / br)] * br + i % br, oj = (long)qq[(size_t)(j / br)] * br + j % br; m(i, j) = src.model(oi, oj); m.st(i, j) = src.model.st(oi, oj); }
-      if(src.kind == K_C64) src.c64.permute(P, Q); else src.b22.permute(P, Q);
+      for(long i = 0; i < m.r; ++i) for(long j = 0; j < m.c; ++j) { long oi = (long)pp[(size_t)(i / br)] * br + i % br, oj = (long)qq[(size_t)(j / bc)] * bc + j % bc; m(i, j) = src.model(oi, oj); m.st(i, j) = src.model.st(oi, oj); }
+      if(src.kind == K_C64) src.c64.permute(P, Q); else if(src.kind == K_B22) src.b22.permute(P, Q); else src.b23.permute(P, Q);
       Dense before = src.model; src.model = m; check_slot(src, si, opname + " (forward)");
-      if(back) { Adjacency::Permutation Pi = P.inverse(), Qi = Q.inverse(); if(src.kind == K_C64) src.c64.permute(Pi, Qi); else src.b22.permute(Pi, Qi); src.model = before; }
+      if(back) { Adjacency::Permutation Pi = P.inverse(), Qi = Q.inverse(); if(src.kind == K_C64) src.c64.permute(Pi, Qi); else if(src.kind == K_B22) src.b22.permute(Pi, Qi); else src.b23.permute(Pi, Qi); src.model = before; }
       di = si; break; }
     case O_TO_C32: {
       opname = "convert:csr<float,u32>"; h.set("op", opname); hist.add(h); c.desc.set("history", hist); c.op = opname + "@" + kind_name[src.kind]; c.label("op:" + opname); c.announce();
@@ -218,7 +220,7 @@ static void chain_case(Tape& t, Ctx& c)
     default: { // O_TO_C64
       opname = "convert:csr<double,u64>"; h.set("op", opname); hist.add(h); c.desc.set("history", hist); c.op = opname + "@" + kind_name[src.kind]; c.label("op:" + opname); c.announce();
       dst.reset(); dst.kind = K_C64; dst.model = src.model;
-      switch(src.kind) { case K_C32: dst.c64.convert(src.c32); break; case K_B22: dst.c64.convert(src.b22); break; case K_SC: dst.c64.convert(src.sc); break;
+      switch(src.kind) { case K_C32: dst.c64.convert(src.c32); break; case K_B22: dst.c64.convert(src.b22); break; case K_B23: dst.c64.convert(src.b23); break; case K_SC: dst.c64.convert(src.sc); break;
         default: dst.c64.convert(src.bd); }
       break; }
     }
